@@ -207,3 +207,39 @@ def check_sorted_construction(ctx, rule: str, cls: str = "AbsoluteSequence") -> 
                       construct=f"raw write to the message list of a locally built {cls} without sorting it",
                       message=f"`{short(st, 60)}` bypasses add_message's ordered insertion", file=fi.file, node=st)
     return n
+
+
+
+def check_overwrite_complete(ctx, rule: str = "OVERWRITE") -> int:
+    """Sequence.overwrite_*_messages: the new view holds every given message -- each element of the parameter is added,
+    unconditionally, to the object that becomes the view (or the list is handed to the constructor whole)."""
+    import ast as _ast
+    from ..astutil import call_method, short, src, path_conditions
+    p = ctx.p
+    n = 0
+    for q, attr in (("Sequence.overwrite_absolute_messages", "_abs"), ("Sequence.overwrite_relative_messages", "_rel")):
+        fi = p.functions.get(q)
+        if fi is None:
+            continue
+        ctx.analysed(fi)
+        prm = fi.params[1]
+        stores = [s for s in _ast.walk(fi.node) if isinstance(s, _ast.Assign) and any(src(t) == f"self.{attr}" for t in s.targets)]
+        ok = False
+        why = "the view is never replaced"
+        if len(stores) == 1:
+            v = stores[0].value
+            if isinstance(v, _ast.Call) and any(src(a) == prm for a in list(v.args) + [k.value for k in v.keywords]):
+                ok, why = True, "list handed to the constructor whole"
+            elif isinstance(v, _ast.Name):
+                obj = v.id
+                loops = [l for l in fi.node.body if isinstance(l, _ast.For) and src(l.iter) == prm and isinstance(l.target, _ast.Name) and l.lineno < stores[0].lineno]
+                adds = [c for l in loops for c in _ast.walk(l) if isinstance(c, _ast.Call) and call_method(c)[1] in ("add_message", "_add_message_unsorted", "append")
+                        and src(call_method(c)[0]).split(".")[0] == obj and c.args and src(c.args[0]) == l.target.id and not path_conditions(c, l)]
+                clean = all(not any(isinstance(x, (_ast.Break, _ast.Continue, _ast.Return)) for x in _ast.walk(l)) for l in loops)
+                ok = len(loops) == 1 and len(adds) == 1 and clean
+                why = f"{len(loops)} loop(s) over `{prm}`, {len(adds)} unconditional add(s)"
+        n += 1
+        ctx.check(ok, rule, f"{q}: every given message goes into the new view ({why})", function=q,
+                  construct="overwrite does not put every given message into the new view",
+                  message=f"{why}: the sequence would silently lose the messages it was overwritten with", file=fi.file, node=stores[0] if stores else fi.node)
+    return n
